@@ -380,7 +380,7 @@ def run(res, proof):
     # set_io_objects / clear_io_objects as translated from the working tree against the real module globals
     import random as _r
     from .pyreaderfn_stream import stream_io_objects
-    stream_io_objects(res, proof, _r.Random(res.seed * 5915587 + 1415), res.tier == 'quick')
+    core.run_stream(stream_io_objects, res, proof, _r.Random(res.seed * 5915587 + 1415), res.tier == 'quick')
     res.sample(lines[:10])
 
 
